@@ -9,6 +9,7 @@ verus! {
 //@include shims/offsetdatetime.rs
 //@include shims/time_ops.rs
 //@include shims/idm_common.rs
+//@include shims/std_option.rs
 pub const AUTH_TOKEN_GRACE_WINDOW: Duration = Duration { secs: @@constexpr:AUTH_TOKEN_GRACE_WINDOW:Duration::from_secs\((.*)\)@@, nanos: 0 };
 pub enum OperationError { NoMatchingEntries, Other }
 #[verifier::external_body]
